@@ -19,6 +19,7 @@ def seqs(tier, rng):
     n = 1500 if tier == "quick" else 30000
     for _ in range(n):
         out.append(tuple(rng.choice(ELEMS) for _ in range(rng.randint(3, 5))))
+    out.append(tuple(ELEMS[k % len(ELEMS)] for k in range(300)))      # one very long one
     for _ in range(60 if tier == "quick" else 1500):      # long ones
         out.append(tuple(rng.choice(ELEMS) for _ in range(rng.choice([8, 9, 12, 16, 17, 24, 33]))))
     return out
